@@ -10,14 +10,15 @@
   returns the state after the call together with the outcome, never only one of them.
 
   Values: a block is what `len(value)` / iteration over `value` give - a list of items, each a `str` or a FmtStr
-  (an FSArray block iterates as its rows). A `str` item `t` is carried as the FmtStr `fmtstr(t)` = `[⟨t, {}⟩]`
-  (ESC-free text) together with the flag "is a str": `" " * k + t`, `t + " " * k` and `splice(t, ...)` give the
-  same characters and lengths as the FmtStr operations (one run instead of up to three - the correspondence
-  compares rows per character). The flags matter for the two `isinstance(value, str)` tests and for the
-  `"".join(value)` of the error path.
+  (`Operand`; an FSArray block iterates as its rows, a `str` value as its characters). A `str` item goes through
+  `setslice_with_length` as a str: padded by str concatenation, measured with the RAW `len`, converted by
+  `fmtstr(...)` inside `splice` (`Splice.setsliceOp`) - so an item containing an SGR sequence is parsed, and its
+  raw length (escape characters included) is what the padding, the assert and `fsarray`'s width use (finding D27).
+  `md` is CPython's int/str digit limit that the parser model takes.
 -/
-import Curtsies.Model.FmtStr
+import Curtsies.Model.SpliceOp
 namespace Curtsies.FSArray
+open Curtsies Curtsies.Splice
 
 structure FSArr where
   rows : List FmtStr
@@ -73,19 +74,19 @@ def FSArr.getitem2 (a : FSArr) (r c : Index) : Except PyErr (List FmtStr) := do
 /-! ### __setitem__ -/
 
 /-- What `len(value)` and iteration over `value` see. `isStr`: the value itself is a `str` (then its items are
-    its characters). Each item: (is a plain `str`, the item as a FmtStr). -/
+    its characters, each a `str`). -/
 structure Block where
   isStr : Bool
-  items : List (Bool × FmtStr)
-  deriving DecidableEq, Repr
+  items : List Operand
+  deriving Repr
 
 /-- `[fs.setslice_with_length(c0, c1, v, W) for fs, v in zip(rows, vals)]`: the first exception propagates. -/
-def setRows (c0 c1 W : Nat) : List FmtStr → List FmtStr → Except PyErr (List FmtStr)
+def setRows (md c0 c1 W : Nat) : List FmtStr → List Operand → Except PyErr (List FmtStr)
   | fs :: rows, v :: vals =>
-    match setsliceWithLength fs c0 c1 v W with
+    match setsliceOp md fs c0 c1 v W with
     | .error e => .error e
     | .ok r =>
-      match setRows c0 c1 W rows vals with
+      match setRows md c0 c1 W rows vals with
       | .error e => .error e
       | .ok rest => .ok (r :: rest)
   | _, _ => .ok []
@@ -97,17 +98,17 @@ def cyanCell : FmtStr := [⟨[' '], { bg := some 6 }⟩]
     message construction trips over first: `setslice_with_length` on the demo grid, `"".join(value)` when an
     item is not a `str`, `"\n ".join(<FmtStr rows>)` when the array has a row; only otherwise the intended
     ValueError. -/
-def mismatchError (rows : List FmtStr) (W : Nat) (rs cs : Nat × Nat) (value : Block) : PyErr :=
-  let gridValue := List.replicate (slicesize rs).toNat (mul cyanCell (slicesize cs))
-  match setRows cs.1 cs.2 W (listSlice rows rs) gridValue with
+def mismatchError (md : Nat) (rows : List FmtStr) (W : Nat) (rs cs : Nat × Nat) (value : Block) : PyErr :=
+  let gridValue := List.replicate (slicesize rs).toNat (Operand.fmt (mul cyanCell (slicesize cs)))
+  match setRows md cs.1 cs.2 W (listSlice rows rs) gridValue with
   | .error e => e
   | .ok _ =>
-    if value.items.any (fun it => !it.1) then .typeError
+    if value.items.any (fun it => !isStr it) then .typeError
     else if rows.length > 0 then .typeError
     else .valueError
 
 /-- `a[r, c] = value` (tuple subscript). Returns the state after the call and the outcome. -/
-def FSArr.setRegion (a : FSArr) (r c : Index) (value : Block) : FSArr × Except PyErr Unit :=
+def FSArr.setRegion (md : Nat) (a : FSArr) (r c : Index) (value : Block) : FSArr × Except PyErr Unit :=
   match normalizeSlice maxsize r with
   | .error e => (a, .error e)
   | .ok rs =>
@@ -119,16 +120,16 @@ def FSArr.setRegion (a : FSArr) (r c : Index) (value : Block) : FSArr × Except 
       if slicesize cs = 0 ∨ slicesize rs = 0 then (a1, .ok ())
       else if slicesize cs > 1 ∧ value.isStr then (a1, .error .valueError)
       else if slicesize rs ≠ (value.items.length : Int) then
-        (a1, .error (mismatchError a1.rows a.numColumns rs cs value))
+        (a1, .error (mismatchError md a1.rows a.numColumns rs cs value))
       else
-        match setRows cs.1 cs.2 a.numColumns (listSlice a1.rows rs) (value.items.map (·.2)) with
+        match setRows md cs.1 cs.2 a.numColumns (listSlice a1.rows rs) value.items with
         | .error e => (a1, .error e)
         | .ok new => ({ a1 with rows := a1.rows.take rs.1 ++ new ++ a1.rows.drop rs.2 }, .ok ())
 
 /-- `a[i:j] = value` (slice subscript): all columns; a `str` value is rejected first. -/
-def FSArr.setRowsSlice (a : FSArr) (r : Index) (value : Block) : FSArr × Except PyErr Unit :=
+def FSArr.setRowsSlice (md : Nat) (a : FSArr) (r : Index) (value : Block) : FSArr × Except PyErr Unit :=
   if value.isStr then (a, .error .valueError)
-  else a.setRegion r (.slice none none) value
+  else a.setRegion md r (.slice none none) value
 
 /-- `a[i] = value` (int subscript) for a FmtStr value: `normalize_slice(self.height, i); self.rows[i] = value`
     - no length check at all (outside C04's statement, which is about region assignment). -/
@@ -141,29 +142,38 @@ def FSArr.setRowInt (a : FSArr) (i : Int) (value : FmtStr) : FSArr × Except PyE
 
 /-! ### fsarray() -/
 
-/-- `zip(arr.rows, strings)` + `setslice_with_length(0, len(s), s, width)` -/
-def fsarrayRows (W : Nat) : List FmtStr → List FmtStr → Except PyErr (List FmtStr)
+/-- `s if isinstance(s, FmtStr) else fmtstr(s, *args, **kwargs)` -/
+def fsarrayConvert (md : Nat) (atts : Atts) : Operand → Except PyErr FmtStr
+  | .fmt f => .ok f
+  | .str t => fmtstrOf md t atts
+
+/-- `[fs.setslice_with_length(0, len(s), s, width) for fs, s in zip(arr.rows, (<converted s> for s in strings))]`:
+    item by item - convert, then set; inside the comprehension `s` is the CONVERTED item, so `len(s)` is its
+    converted length. The first exception propagates. -/
+def fsarrayRows (md W : Nat) (atts : Atts) : List FmtStr → List Operand → Except PyErr (List FmtStr)
   | fs :: rows, s :: strings =>
-    match setsliceWithLength fs 0 (len s) s W with
+    match fsarrayConvert md atts s with
     | .error e => .error e
-    | .ok r =>
-      match fsarrayRows W rows strings with
+    | .ok sf =>
+      match setsliceWithLength fs 0 (len sf) sf W with
       | .error e => .error e
-      | .ok rest => .ok (r :: rest)
+      | .ok r =>
+        match fsarrayRows md W atts rows strings with
+        | .error e => .error e
+        | .ok rest => .ok (r :: rest)
   | _, _ => .ok []
 
-/-- `fsarray(strings, width, *args, **kwargs)` with the `str` items already converted by
-    `fmtstr(s, *args, **kwargs)` (= `[⟨s, atts⟩]` for ESC-free text; same length as the str). -/
-def fsarray (strings : List FmtStr) (width : Option Nat) (atts : Atts) : Except PyErr FSArr :=
+/-- `fsarray(strings, width, *args, **kwargs)`: the width test and the default width use the RAW `len(s)`. -/
+def fsarray (md : Nat) (strings : List Operand) (width : Option Nat) (atts : Atts) : Except PyErr FSArr :=
   let w : Except PyErr Nat :=
     match width with
-    | some w => if strings.any (fun s => len s > w) then .error .valueError else .ok w
-    | none => .ok ((strings.map len).foldl max 0)
+    | some w => if strings.any (fun s => s.rawLen > w) then .error .valueError else .ok w
+    | none => .ok ((strings.map Operand.rawLen).foldl max 0)
   match w with
   | .error e => .error e
   | .ok w =>
     let arr := FSArr.init strings.length w atts
-    match fsarrayRows w arr.rows strings with
+    match fsarrayRows md w atts arr.rows strings with
     | .error e => .error e
     | .ok rows => .ok { arr with rows := rows }
 
